@@ -1,8 +1,426 @@
-import Isotp.Process
+import Isotp.Proofs.C09
 /-
-  C09 — property theorems (see DESIGN.md §6). Helper lemmas live in Isotp/Proofs.
+  C09 — Addressing: only my frames are accepted; mirrored peers understand each other.
+
+  Reference definitions: `Isotp/Spec/Addressing.lean` (written from doc/source/isotp/addressing.rst).
+  Helper lemmas: `Isotp/Proofs/C09.lean`.
+
+  Reading guide
+  * §1  the model's `is_for_me` is the documented reception condition (all modes, all parameters,
+        no validity hypothesis); `Address(...)` only builds well-formed addresses.
+  * §2  a frame that is not for me is never given to `_process_rx`: the rx loop treats it exactly
+        like the same clock advance without a frame (only the `.rx` trace entry and the
+        `received` counter differ).
+  * §3  every frame built by `_make_tx_msg` / `_make_flow_control` / the transmit FSM carries the
+        documented identifier, identifier type and payload prefix; invariant for the standby message.
+  * §4  documented frames are accepted by the mirrored address.
+  * §5  Functional target address type in `send()`.
 -/
 namespace Isotp.C09
-open Isotp State
+open Isotp Isotp.State Isotp.Spec
+
+/-! ## Fixtures used by the non-vacuity examples (the examples of addressing.rst) -/
+
+/-- NormalFixed_29bits, source_address 0x55, target_address 0xAA. -/
+def exFixed : Half :=
+  { mode := .nf29, txid := none, rxid := none, ta := some 0xAA, sa := some 0x55, ae := none,
+    physId := 0x18DA0000, funcId := 0x18DB0000, rxOnly := false, txOnly := false }
+
+/-- Extended_11bits, rxid 0x123, txid 0x456, source_address 0x55, target_address 0xAA. -/
+def exExtended : Half :=
+  { mode := .e11, txid := some 0x456, rxid := some 0x123, ta := some 0xAA, sa := some 0x55, ae := none,
+    physId := 0, funcId := 0, rxOnly := false, txOnly := false }
+
+/-- Mixed_29bits, source_address 0x55, target_address 0xAA, address_extension 0x99. -/
+def exMixed29 : Half :=
+  { mode := .m29, txid := none, rxid := none, ta := some 0xAA, sa := some 0x55, ae := some 0x99,
+    physId := 0x18CE0000, funcId := 0x18CD0000, rxOnly := false, txOnly := false }
+
+/-- a layer with the normal fixed example address and default parameters -/
+def exState : State := State.init {} { tx := exFixed, rx := exFixed }
+
+/-! ### The reference definitions reproduce the worked examples of addressing.rst -/
+
+-- Normal fixed: `0x18DA55AA [8] 10 0A ...` is received, the flow control goes out on `0x18DAAA55`.
+example : receptionCondition exFixed { id := 0x18DA55AA, ext := true, data := [0x10, 0x0A, 0, 1, 2, 3, 4] } = true := by decide
+example : receptionCondition exFixed { id := 0x18DB55AA, ext := true, data := [0x02, 1, 2] } = true := by decide
+example : receptionCondition exFixed { id := 0x18DA55AB, ext := true, data := [0x02, 1, 2] } = false := by decide
+example : receptionCondition exFixed { id := 0x18DA55AA, ext := false, data := [0x02, 1, 2] } = false := by decide
+example : emittedId exFixed .physical = 0x18DAAA55 := by decide
+example : emittedId exFixed .functional = 0x18DBAA55 := by decide
+example : emittedIdBitwise exFixed .physical = 0x18DAAA55 := by decide
+-- Extended: `0x123 [8] 55 10 0A ...` is received, `0x456 [5] AA 30 00 08 00` is sent.
+example : receptionCondition exExtended { id := 0x123, ext := false, data := [0x55, 0x10, 0x0A, 0, 1, 2, 3] } = true := by decide
+example : receptionCondition exExtended { id := 0x123, ext := false, data := [0x56, 0x10, 0x0A, 0, 1, 2, 3] } = false := by decide
+example : receptionCondition exExtended { id := 0x123, ext := false, data := [] } = false := by decide
+example : emittedId exExtended .physical = 0x456 ∧ emittedPrefix exExtended = [0xAA] := by decide
+-- Mixed 29: `0x18CE55AA [8] 99 10 0A ...` is received, `0x18CEAA55 [5] 99 30 00 08 00` is sent.
+example : receptionCondition exMixed29 { id := 0x18CE55AA, ext := true, data := [0x99, 0x10, 0x0A, 0, 1, 2, 3] } = true := by decide
+example : receptionCondition exMixed29 { id := 0x18CE55AA, ext := true, data := [0x98, 0x10, 0x0A, 0, 1, 2, 3] } = false := by decide
+example : emittedId exMixed29 .physical = 0x18CEAA55 ∧ emittedPrefix exMixed29 = [0x99] := by decide
+
+/-! ## §1 Reception condition -/
+
+/-- **C09.1** For every address (every mode, every parameter value, well-formed or not) and every
+    CAN frame, the model's `is_for_me` is exactly the documented reception condition: identifier
+    type of the mode, identifier value / target and source address fields of the identifier, first
+    payload byte. -/
+theorem isForMe_iff (h : Half) (m : CanMsg) : h.isForMe m = Spec.receptionCondition h m :=
+  isForMe_eq_receptionCondition h m
+
+/-- The model's transmit identifier and payload prefix are the documented ones (all modes, both
+    target address types, no hypothesis). -/
+theorem txId_eq_spec (h : Half) (t : Tat) : h.txId t = Spec.emittedId h t := txId_eq_emittedId h t
+
+theorem txPrefix_eq_spec (h : Half) : h.txPrefix = Spec.emittedPrefix h := txPrefix_eq_emittedPrefix h
+
+/-- `Address(...)` only returns well-formed addresses (`Half.wf`: address bytes ≤ 0xFF, 11-bit ids
+    ≤ 0x7FF, bases restricted to bits 28..16, not both partial flags, the presence table of the
+    documentation, `txid ≠ rxid`). -/
+theorem mkAddress_wf (a : AddrArgs) (h : Half) (hk : mkAddress a = .ok h) : h.wf = true :=
+  wf_of_mkAddress a h hk
+
+example : mkAddress { mode := some .nf29, ta := .int 0xAA, sa := .int 0x55 } = .ok exFixed := by rfl
+
+/-- For a well-formed address the arithmetic form of the emitted identifier (`base + 256·TA + SA`,
+    which is what the model computes) is the bitwise form of address.py
+    (`bits28_16 | (target_address << 8) | source_address`). -/
+theorem emittedId_bitwise (h : Half) (t : Tat) (hw : h.wf = true) :
+    Spec.emittedId h t = Spec.emittedIdBitwise h t := emittedId_eq_bitwise h t hw
+
+example : exFixed.wf = true := by decide
+
+/-! ## §2 A frame that is not for me changes nothing, reports nothing, disturbs nothing -/
+
+/-- **C09.3a** One iteration of the rx loop of `process` on a frame that does not meet the
+    reception condition: `_process_rx` is not called; the loop continues (or, with `do_tx` and a
+    time-driven transmit FSM, returns requesting another pass) from `skipFrame s dt m rest`, and of
+    the statistics only `received` is incremented (`processed` and `frames` are untouched). -/
+theorem ignored_frame (doTx : Bool) (s : State) (st : Stats) (dt : Nat) (m : CanMsg)
+    (rest : List (Nat × CanMsg)) (h : Spec.receptionCondition s.addr.rx m = false) :
+    rxLoop doTx s st ((dt, m) :: rest) =
+      if doTx && (skipFrame s dt m rest).txTimeDriven then
+        (skipFrame s dt m rest, { st with received := st.received + 1 }, true)
+      else rxLoop doTx (skipFrame s dt m rest) { st with received := st.received + 1 } rest :=
+  rxLoop_ignored doTx s st dt m rest (by rw [isForMe_iff]; exact h)
+
+example : Spec.receptionCondition exState.addr.rx { id := 0x18DA55AB, ext := true, data := [2, 1, 2] } = false := by
+  decide
+
+/-- **C09.3b** `skipFrame` (what happened to the state while the foreign frame was read) and `tick`
+    (the same clock advance and `_check_timeouts_rx` with no frame at all) agree on every field of
+    the state except the trace `log` and the bus-side `inbox`: whatever values are put in these two
+    fields, the states are equal. In particular the whole receive FSM, the receive queue, the
+    pending flow control, the transmit FSM, timers and the exception slot are those of `tick`. -/
+theorem ignored_frame_state (s : State) (dt : Nat) (m : CanMsg) (rest : List (Nat × CanMsg))
+    (L : List Ev) (I : List (Nat × CanMsg)) :
+    { skipFrame s dt m rest with log := L, inbox := I } = { tick s dt with log := L, inbox := I } :=
+  skipFrame_eq_tick s dt m rest L I
+
+/-- **C09.3c** The fields named by the property, one by one. -/
+theorem ignored_frame_fields (s : State) (dt : Nat) (m : CanMsg) (rest : List (Nat × CanMsg)) :
+    let a := skipFrame s dt m rest
+    let b := tick s dt
+    a.rxState = b.rxState ∧ a.rxBuf = b.rxBuf ∧ a.rxFrameLen = b.rxFrameLen ∧ a.lastSeq = b.lastSeq ∧
+    a.rxBlockCnt = b.rxBlockCnt ∧ a.actualRxdl = b.actualRxdl ∧ a.timerCf = b.timerCf ∧
+    a.pendingFc = b.pendingFc ∧ a.pendingFcStatus = b.pendingFcStatus ∧ a.rxQueue = b.rxQueue ∧
+    a.txState = b.txState ∧ a.txQueue = b.txQueue ∧ a.active = b.active ∧ a.standby = b.standby ∧
+    a.lastFc = b.lastFc ∧ a.exc = b.exc ∧ a.now = b.now ∧ a.addr = b.addr ∧ a.cfg = b.cfg ∧
+    a.inbox = rest := by
+  intro a b
+  have h := skipFrame_eq_tick s dt m rest [] []
+  have hi : a.inbox = rest := by
+    simp only [a, skipFrame, checkTimeoutsRx, emit, State.error, stopReceiving]
+    by_cases hto : s.timerCf.timedOut (s.now + dt) = true
+    · simp only [hto, ↓reduceIte]
+    · simp only [hto, Bool.false_eq_true, ↓reduceIte]
+  refine ⟨?_, ?_, ?_, ?_, ?_, ?_, ?_, ?_, ?_, ?_, ?_, ?_, ?_, ?_, ?_, ?_, ?_, ?_, ?_, hi⟩
+  · have e := congrArg State.rxState h; exact e
+  · have e := congrArg State.rxBuf h; exact e
+  · have e := congrArg State.rxFrameLen h; exact e
+  · have e := congrArg State.lastSeq h; exact e
+  · have e := congrArg State.rxBlockCnt h; exact e
+  · have e := congrArg State.actualRxdl h; exact e
+  · have e := congrArg State.timerCf h; exact e
+  · have e := congrArg State.pendingFc h; exact e
+  · have e := congrArg State.pendingFcStatus h; exact e
+  · have e := congrArg State.rxQueue h; exact e
+  · have e := congrArg State.txState h; exact e
+  · have e := congrArg State.txQueue h; exact e
+  · have e := congrArg State.active h; exact e
+  · have e := congrArg State.standby h; exact e
+  · have e := congrArg State.lastFc h; exact e
+  · have e := congrArg State.exc h; exact e
+  · have e := congrArg State.now h; exact e
+  · have e := congrArg State.addr h; exact e
+  · have e := congrArg State.cfg h; exact e
+
+/-- **C09.3d** The trace: the foreign frame contributes exactly its `.rx` entry. The events that
+    the clock advance itself produces (`pre`: nothing, or one `ConsecutiveFrameTimeoutError` of a
+    reception whose timer ran out, at the new time) are the same with and without the frame;
+    no `deliver`, no other error. -/
+theorem ignored_frame_log (s : State) (dt : Nat) (m : CanMsg) (rest : List (Nat × CanMsg)) :
+    ∃ pre : List Ev,
+      (tick s dt).log = pre ++ s.log ∧
+      (skipFrame s dt m rest).log = pre ++ Ev.rx (s.now + dt) m :: s.log ∧
+      (pre = [] ∨ pre = [Ev.err (s.now + dt) .ConsecutiveFrameTimeout]) := by
+  unfold skipFrame tick checkTimeoutsRx
+  simp only [emit, State.error, stopReceiving]
+  by_cases hto : s.timerCf.timedOut (s.now + dt) = true
+  · exact ⟨[Ev.err (s.now + dt) .ConsecutiveFrameTimeout], by simp [hto]⟩
+  · exact ⟨[], by simp [hto]⟩
+
+/-! ## §3 Emitted frames carry the documented identifier, identifier type and prefix -/
+
+/-- **C09.4a** `_make_tx_msg`: identifier as requested, identifier type of the transmit address,
+    the given bytes are a prefix of the (padded) data. -/
+theorem emit_id_prefix (c : Cfg) (a : Addr) (arbId : Nat) (d : Bytes) (msg : CanMsg)
+    (h : makeTxMsg c a arbId d = some msg) :
+    msg.id = arbId ∧ msg.ext = a.tx.mode.is29 ∧ d <+: msg.data :=
+  makeTxMsg_spec c a arbId d msg h
+
+example : ∃ msg, makeTxMsg {} exState.addr 0x18DAAA55 [2, 1, 2] = some msg := ⟨_, rfl⟩
+
+/-- **C09.4b** Flow Control frames: physical identifier, identifier type, prefix. -/
+theorem emit_flowControl (c : Cfg) (a : Addr) (status : Nat) (msg : CanMsg)
+    (h : makeFlowControl c a status = some msg) : Spec.EmittedFrameOk a.tx .physical msg :=
+  makeFlowControl_ok c a status msg h
+
+example : ∃ msg, makeFlowControl {} exState.addr 0 = some msg := ⟨_, rfl⟩
+
+/-- **C09.4c** Start of a transmission (Single Frame or First Frame), sent at once or parked in
+    `standby` by the rate limiter: the frame is the documented one for `startTat s r`, i.e. the
+    request's target address type for a Single Frame and Physical for a First Frame.
+    The address is not changed; a standby message is either the one that was already there or
+    the new documented frame. -/
+theorem emit_startTx (s : State) (r : Req) (allowed : Nat) (s' : State) (out : Option CanMsg)
+    (h : s.startTx r allowed = (s', out)) :
+    s'.addr = s.addr ∧
+    (∀ msg, s'.standby = some msg →
+        s.standby = some msg ∨ Spec.EmittedFrameOk s.addr.tx (startTat s r) msg) ∧
+    (∀ msg, out = some msg → Spec.EmittedFrameOk s.addr.tx (startTat s r) msg) :=
+  startTx_spec s r allowed s' out h
+
+/-- **C09.4d** Consecutive Frames: physical identifier, identifier type, prefix. -/
+theorem emit_transmitCf (s : State) (allowed : Nat) (s' : State) (out : Option CanMsg) (imm : Bool)
+    (h : s.transmitCf allowed = (s', out, imm)) :
+    s'.addr = s.addr ∧ ∀ msg, out = some msg → Spec.EmittedFrameOk s.addr.tx .physical msg :=
+  ⟨(transmitCf_spec s allowed s' out imm h).1.1, (transmitCf_spec s allowed s' out imm h).2⟩
+
+/-- Invariant: the message parked by the rate limiter, if any, is a documented frame of the
+    transmit address (for the Physical or the Functional target address type). -/
+def StandbyOk (s : State) : Prop :=
+  ∀ msg, s.standby = some msg → Spec.EmittedFrameOkAny s.addr.tx msg
+
+/-- the initial state satisfies the invariant -/
+theorem standbyOk_init (c : Cfg) (a : Addr) : StandbyOk (State.init c a) := by
+  intro msg h; simp [State.init] at h
+
+/-- `startTx` establishes / preserves the invariant. -/
+theorem standbyOk_startTx (s : State) (r : Req) (allowed : Nat) (hs : StandbyOk s) :
+    StandbyOk (s.startTx r allowed).1 := by
+  generalize hres : s.startTx r allowed = res
+  obtain ⟨s', out⟩ := res
+  obtain ⟨ha, hsb, _⟩ := startTx_spec s r allowed s' out hres
+  intro msg hm
+  simp only [] at hm ⊢
+  rw [ha]
+  rcases hsb msg hm with h | h
+  · exact hs msg h
+  · exact any_of_startTat _ _ _ _ h
+
+/-- **C09.4e** `_process_tx` preserves the invariant and the address. -/
+theorem standbyOk_processTx (s : State) (hs : StandbyOk s) :
+    StandbyOk s.processTx.1 ∧ s.processTx.1.addr = s.addr := by
+  generalize hres : s.processTx = res
+  obtain ⟨s', out, imm⟩ := res
+  obtain ⟨⟨ha, hsb⟩, _⟩ := processTx_spec s s' out imm hres
+  refine ⟨?_, ha⟩
+  intro msg hm
+  simp only [] at hm ⊢
+  rw [ha]
+  rcases hsb msg hm with h | h
+  · exact hs msg h
+  · exact h
+
+/-- **C09.4f** Every frame that `_process_tx` hands to the driver (Flow Control, Single Frame,
+    First Frame, Consecutive Frame, or a released standby frame) carries the documented
+    identifier for the Physical or the Functional target address type, the identifier type of the
+    mode, and starts with the documented prefix byte. -/
+theorem emit_processTx (s : State) (hs : StandbyOk s) (msg : CanMsg)
+    (h : s.processTx.2.1 = some msg) : Spec.EmittedFrameOkAny s.addr.tx msg := by
+  generalize hres : s.processTx = res at h
+  obtain ⟨s', out, imm⟩ := res
+  obtain ⟨_, ho⟩ := processTx_spec s s' out imm hres
+  rcases ho msg h with h' | h'
+  · exact hs msg h'
+  · exact h'
+
+example : StandbyOk exState := standbyOk_init _ _
+
+/-! ## §4 Mirrored peers understand each other -/
+
+/-- In the Normal, Extended and Mixed-11 schemes the Functional target address type uses the same
+    identifier as the Physical one (`txid`); only NormalFixed_29bits and Mixed_29bits have a
+    distinct functional identifier. -/
+theorem functional_same_id (h : Half) (hm : h.mode ≠ .nf29 ∧ h.mode ≠ .m29) :
+    Spec.emittedId h .functional = Spec.emittedId h .physical := by
+  unfold emittedId; cases hmode : h.mode <;> simp_all [scheme]
+
+example : exExtended.mode ≠ .nf29 ∧ exExtended.mode ≠ .m29 := by decide
+
+/-- **C09.5a** (specification level) For a well-formed address that can transmit, every frame that
+    is as the documentation says emitted frames are — for either target address type — meets the
+    documented reception condition of the mirrored address. -/
+theorem mirror_accepts_spec (h : Half) (t : Tat) (msg : CanMsg) (hw : h.txWf = true)
+    (hm : Spec.EmittedFrameOk h t msg) : Spec.receptionCondition (Spec.mirror h) msg = true :=
+  mirror_receives h t msg hw hm
+
+/-- **C09.5b** (model level) A frame with `id = h.txId tat`, `ext = h.mode.is29`,
+    `data = h.txPrefix ++ rest` is accepted by `is_for_me` of the mirrored address, for both
+    target address types and all seven modes. -/
+theorem mirror_accepts (h : Half) (t : Tat) (msg : CanMsg) (rest : Bytes) (hw : h.txWf = true)
+    (hid : msg.id = h.txId t) (hext : msg.ext = h.mode.is29) (hdata : msg.data = h.txPrefix ++ rest) :
+    (Spec.mirror h).isForMe msg = true :=
+  mirror_isForMe h t msg hw
+    (prefix_of_emittedOk h t msg hid hext (by rw [hdata]; exact List.prefix_append _ _))
+
+example : exFixed.txWf = true ∧ exExtended.txWf = true ∧ exMixed29.txWf = true := by decide
+example : (Spec.mirror exFixed).isForMe { id := 0x18DBAA55, ext := true, data := [2, 1, 2] } = true := by decide
+
+/-- `Address(...)` without `rx_only=True` gives an address to which `mirror_accepts` applies. -/
+theorem mkAddress_txWf (a : AddrArgs) (h : Half) (hk : mkAddress a = .ok h) (hr : a.rxOnly = false) :
+    h.txWf = true := by
+  have hw := wf_of_mkAddress a h hk
+  have : h.rxOnly = a.rxOnly := by
+    unfold mkAddress at hk
+    split at hk
+    · simp at hk
+    · split at hk
+      · injection hk with hk; subst hk; rfl
+      · simp at hk
+  simp [Half.txWf, hw, this, hr]
+
+/-- **C09.5c** Every frame `_process_tx` emits is accepted by a layer configured with the mirrored
+    address (transmit address well-formed, standby invariant). -/
+theorem processTx_accepted_by_mirror (s : State) (hs : StandbyOk s) (hw : s.addr.tx.txWf = true)
+    (msg : CanMsg) (h : s.processTx.2.1 = some msg) :
+    (Spec.mirror s.addr.tx).isForMe msg = true := by
+  rcases emit_processTx s hs msg h with h' | h'
+  · exact mirror_isForMe _ _ _ hw h'
+  · exact mirror_isForMe _ _ _ hw h'
+
+/-! ## §5 Functional target address type -/
+
+/-- **C09.6a** `send()` with the Functional target address type and a payload that does not fit a
+    Single Frame (`len + 1` — `+ 2` when `tx_data_length ≠ 8` — `+ prefix > tx_data_length`):
+    `ValueError`, and the state (in particular the queue) is unchanged. -/
+theorem functional_send_rejected (s : State) (a : SendArgs)
+    (htat : a.tat.getD s.cfg.defaultTat = .functional)
+    (hbig : a.size.toNat + (if s.cfg.txDl = 8 then 1 else 2) + s.txPrefixLen > s.cfg.txDl) :
+    s.send a = (s, some .ValueError) := by
+  unfold send
+  simp only [htat]
+  split
+  · rfl
+  · split
+    · rfl
+    · simp [hbig]
+
+example : (exState.send { id := 0, size := 8, src := [], tat := some .functional }).2 = some .ValueError := by
+  decide
+
+/-- **C09.6b** Otherwise (size in range, fits) the request is queued with `tat = functional`. -/
+theorem functional_send_queued (s : State) (a : SendArgs)
+    (htat : a.tat.getD s.cfg.defaultTat = .functional)
+    (h0 : 0 ≤ a.size) (h1 : a.size ≤ 0xFFFFFFFF)
+    (hfit : a.size.toNat + (if s.cfg.txDl = 8 then 1 else 2) + s.txPrefixLen ≤ s.cfg.txDl) :
+    s.send a =
+      ({ s with txQueue := s.txQueue ++
+          [{ id := a.id, size := a.size.toNat, src := a.src, tat := .functional, instr := a.instr }] },
+       if s.cfg.blocking then some .BlockingSendTimeout else none) := by
+  unfold send
+  simp only [htat]
+  have h0' : ¬ a.size < 0 := by omega
+  have h1' : ¬ a.size > 0xFFFFFFFF := by omega
+  have hfit' : ¬ (a.size.toNat + (if s.cfg.txDl = 8 then 1 else 2) + s.txPrefixLen > s.cfg.txDl) := by omega
+  simp only [h0', h1', hfit', if_false, decide_false, Bool.and_false, Bool.false_eq_true]
+  split <;> rfl
+
+example : (0 : Int) ≤ 7 ∧ (7 : Int) ≤ 0xFFFFFFFF ∧
+    (7 : Int).toNat + (if exState.cfg.txDl = 8 then 1 else 2) + exState.txPrefixLen ≤ exState.cfg.txDl := by
+  decide
+
+/-- A request accepted by `send()` with the Functional type is transmitted as a Single Frame
+    (validated parameters: `Cfg.valid`). -/
+theorem functional_fits_single_frame (s : State) (r : Req) (hv : s.cfg.valid = true)
+    (hfit : r.size + (if s.cfg.txDl = 8 then 1 else 2) + s.txPrefixLen ≤ s.cfg.txDl) :
+    sendsSingleFrame s r = true := by
+  unfold sendsSingleFrame
+  simp only [Cfg.valid, Bool.and_eq_true, decide_eq_true_eq] at hv
+  obtain ⟨⟨⟨⟨⟨_, _⟩, _⟩, _⟩, hmin⟩, _⟩ := hv
+  have hr : r.remaining ≤ r.size := by unfold Req.remaining; omega
+  cases hm : s.cfg.txMinLen with
+  | none => simp only [Option.getD_none, decide_eq_true_eq]; split <;> split at hfit <;> omega
+  | some m =>
+    simp only [hm, Bool.and_eq_true, decide_eq_true_eq] at hmin
+    simp only [Option.getD_some, decide_eq_true_eq]
+    split <;> split at hfit <;> omega
+
+/-- **C09.6c** `startTx` for such a request uses the functional identifier: the frame it sends
+    (or parks in standby) has `id = txId functional`, the identifier type of the mode and the
+    documented prefix. -/
+theorem functional_startTx (s : State) (r : Req) (allowed : Nat) (hv : s.cfg.valid = true)
+    (htat : r.tat = .functional)
+    (hfit : r.size + (if s.cfg.txDl = 8 then 1 else 2) + s.txPrefixLen ≤ s.cfg.txDl)
+    (msg : CanMsg)
+    (hm : (s.startTx r allowed).2 = some msg ∨
+          ((s.startTx r allowed).1.standby = some msg ∧ s.standby = none)) :
+    msg.id = s.addr.tx.txId .functional ∧ msg.ext = s.addr.tx.mode.is29 ∧
+      s.addr.tx.txPrefix <+: msg.data := by
+  generalize hres : s.startTx r allowed = res at hm
+  obtain ⟨s', out⟩ := res
+  obtain ⟨_, hsb, ho⟩ := startTx_spec s r allowed s' out hres
+  simp only [] at hm
+  have ht : startTat s r = .functional := by
+    unfold startTat; rw [functional_fits_single_frame s r hv hfit, htat]; rfl
+  rw [ht] at hsb ho
+  have hok : Spec.EmittedFrameOk s.addr.tx .functional msg := by
+    rcases hm with hm | ⟨hm, hn⟩
+    · exact ho msg hm
+    · rcases hsb msg hm with h | h
+      · rw [hn] at h; cases h
+      · exact h
+  rw [txId_eq_emittedId, txPrefix_eq_emittedPrefix, ← uses29bitIds_eq]
+  exact hok
+
+example : exState.cfg.valid = true := by decide
 
 end Isotp.C09
+
+#print axioms Isotp.C09.isForMe_iff
+#print axioms Isotp.C09.txId_eq_spec
+#print axioms Isotp.C09.txPrefix_eq_spec
+#print axioms Isotp.C09.mkAddress_wf
+#print axioms Isotp.C09.emittedId_bitwise
+#print axioms Isotp.C09.ignored_frame
+#print axioms Isotp.C09.ignored_frame_state
+#print axioms Isotp.C09.ignored_frame_fields
+#print axioms Isotp.C09.ignored_frame_log
+#print axioms Isotp.C09.emit_id_prefix
+#print axioms Isotp.C09.emit_flowControl
+#print axioms Isotp.C09.emit_startTx
+#print axioms Isotp.C09.emit_transmitCf
+#print axioms Isotp.C09.standbyOk_init
+#print axioms Isotp.C09.standbyOk_startTx
+#print axioms Isotp.C09.standbyOk_processTx
+#print axioms Isotp.C09.emit_processTx
+#print axioms Isotp.C09.functional_same_id
+#print axioms Isotp.C09.mirror_accepts_spec
+#print axioms Isotp.C09.mirror_accepts
+#print axioms Isotp.C09.mkAddress_txWf
+#print axioms Isotp.C09.processTx_accepted_by_mirror
+#print axioms Isotp.C09.functional_send_rejected
+#print axioms Isotp.C09.functional_send_queued
+#print axioms Isotp.C09.functional_fits_single_frame
+#print axioms Isotp.C09.functional_startTx
